@@ -67,13 +67,22 @@ def growthCol (A : NCMat) (invPermC : Nat → Nat) (U : NCP) (sn : Snode) (rpg :
 def growthSnode (ncols : Nat) (A : NCMat) (invPermC : Nat → Nat) (U : NCP) (sn : Snode) (rpg : Rat) : Rat :=
   (List.range (sn.e - sn.f)).foldl (fun r k => if sn.f + k < ncols then growthCol A invPermC U sn r k else r) rpg
 
-/-- `for (k = 0; k <= nsuper; ++k) { ...; if (j >= ncols) break; }` — supernodes are visited in supernode
-NUMBER order and the loop stops after the first one that reaches column `ncols` -/
-def growthLoop (ncols : Nat) (A : NCMat) (invPermC : Nat → Nat) (U : NCP) : List Snode → Rat → Rat
+/-- ORIGINAL loop `for (k = 0; k <= nsuper; ++k) { ...; if (j >= ncols) break; }` — supernodes are visited in supernode
+NUMBER order and the loop stopped after the first one that reaches column `ncols` (repaired in /repo: the early exit is gone) -/
+def growthLoopOrig (ncols : Nat) (A : NCMat) (invPermC : Nat → Nat) (U : NCP) : List Snode → Rat → Rat
   | [], rpg => rpg
   | sn :: rest, rpg =>
     let r := growthSnode ncols A invPermC U sn rpg
-    if ncols ≤ sn.e then r else growthLoop ncols A invPermC U rest r
+    if ncols ≤ sn.e then r else growthLoopOrig ncols A invPermC U rest r
+
+def pivotGrowthOrig (ncols : Nat) (A : NCMat) (permC : Array Int) (L : SCP) (U : NCP) (rpg0 : Rat) : Rat :=
+  let inv := invPerm A.ncol permC
+  growthLoopOrig ncols A (fun j => inv.getD j 0) U L.sn.toList rpg0
+
+/-- `for (k = 0; k <= nsuper; ++k) { for (j = fsupc; j < L_LAST_SUPC(k) && j < ncols; ++j) … }`: every supernode is visited -/
+def growthLoop (ncols : Nat) (A : NCMat) (invPermC : Nat → Nat) (U : NCP) : List Snode → Rat → Rat
+  | [], rpg => rpg
+  | sn :: rest, rpg => growthLoop ncols A invPermC U rest (growthSnode ncols A invPermC U sn rpg)
 
 /-- `?PivotGrowth(ncols, A, perm_c, L, U)`; `rpg0 = 1/?lamch("S")`.  The values of `A` must be on the same dyadic
 scale as the integer values of `L`/`U` (the driver rescales A); the ratios are then scale-free. -/
